@@ -2,7 +2,7 @@
 """Regenerate /verif/MANIFEST.json from the table below (keeps it valid at all times)."""
 import json, subprocess
 props=[json.loads(l) for l in open('/verif/properties.jsonl')]
-HOOK_COMMITS=["c6ec061"]
+HOOK_COMMITS=["c6ec061","2a08fc4"]
 # id -> (technique, level text, level note, design ref)
 CHECKS={
  "C08":("property-based testing (proptest): generated supplies/workloads/offsets/limits vs. linear-scan least-solution oracle over a reference SBF",
@@ -13,6 +13,34 @@ CHECKS={
         "Generated reservations (P<=40/60 with every window length <= 6P and every demand; P up to 10^6 at generated points around the SBF's breakpoints) and generated budget placements; provided_service must equal the minimum over all placements (computed from (Q,D,P) alone), never exceed the service of any explicit placement, be attained by the constructed early-then-late placement, be 0 at 0 / monotone / 1-Lipschitz; service_time (specialised and the trait default through a wrapper) must be the least t with sbf(t) >= demand; Constrained(Q,P,P) = Periodic(Q,P), budget = period = Dedicated. Plus a literal enumeration of all placements for P <= 4 (quick) / 5 (thorough). Exploration.",
         "Trusted: the per-period decomposition of the minimum over placements (cross-checked by the literal enumeration stage) and the assumption that a reservation delivers exactly its budget per period.",
         "DESIGN.md section 4 (C09)"),
+ "C10":("property-based testing (proptest): generated nested arrival models and generated admissible event sequences vs. window counting",
+        "Generated nested arrival specs and, per case, the densest plus several generated admissible event sequences (semantics written from the models' documentation, independent of number_arrivals); every window of every length is counted and compared with number_arrivals; plus zero-at-zero, monotonicity, attainment and sub-additivity for Periodic/Sporadic, and jitter composition (pointwise and against twice-delayed sequences). Exploration.",
+        "Trusted: the harness' reading of which sequences each model documents as admissible (arr.rs events()).",
+        "DESIGN.md section 4 (C10), 3.1"),
+ "C11":("property-based testing (proptest): generated arrival/request bounds vs. brute-force increase points",
+        "For generated arrival bounds of every kind (incl. plateau-ended prefixes, jitter > period, derived/converted curves, prefixes, composites) and request bounds over 1-4 components with positive costs, the sequence yielded by steps_iter up to a horizon of several prefix repetitions is compared element-wise with the brute-force set {delta : f(delta-1) < f(delta)}; step_offsets = steps - 1. Known finding (leading 0 of a direct ArrivalCurvePrefix, pinned by the crate's test) is matched by an exact signature and excluded, everything else about such cases is still checked. Exploration.",
+        "Trusted: number_arrivals / service_needed as the definition of 'the bound' (their own correctness is C10/C12/C16).",
+        "DESIGN.md section 4 (C11)"),
+ "C12":("property-based testing (proptest): generated traces and sub-additive source models vs. window counting / pointwise dominance and prefix equality / duality",
+        "Traces with simultaneous events and bursts: the inferred curve must bound the trace's events in every window of every length (window counting) and be exact inside the recorded prefix; curves and prefixes derived from generated sub-additive sources must dominate the source far beyond the prefix and equal it on the covered prefix; delta_min_iter must be the exact dual of number_arrivals. Exploration.",
+        "Trusted: sources are sub-additive by construction; Curve::from(&ArrivalCurvePrefix) is compared with the ultimate source (the prefix's own tail is deliberately pessimistic).",
+        "DESIGN.md section 4 (C12)"),
+ "C13":("property-based testing (proptest), model-based histories: generated prefixes, eager operations, event sequences and query histories over shared clones vs. un-extrapolated / fresh / eagerly extrapolated references",
+        "Eager extrapolation (extrapolate, extrapolate_steps, extrapolate_with_bound) of generated super-additive prefixes is compared pointwise with the un-extrapolated curve (unchanged inside the prefix, never more) and with window counts of generated sequences respecting the prefix; generated histories of queries (number_arrivals, steps, iterators held across queries, clones, jittered clones) on objects sharing one ExtrapolatingCurve cache are compared answer by answer with fresh instances and an eagerly extrapolated Curve; any panic (BorrowMutError) is a violation. Exploration.",
+        "Trusted: greedy earliest-legal-time sequences are admissible for a delta-min prefix.",
+        "DESIGN.md section 4 (C13)"),
+ "C14":("property-based testing (proptest), model-based histories: generated cost models / traces / query histories vs. sliding-window sums and fresh instances",
+        "Model laws for every cost model far beyond its prefix; trace-derived curves against the maximum cost of every run of n consecutive jobs of the generated trace (expensive runs at the very end included) for every n; eager extrapolation never raises a bound inside the extended prefix and keeps dominating the trace; cached answers equal fresh ones for generated query histories over shared clones. Exploration.",
+        "Trusted: sliding-window sums over the raw trace.",
+        "DESIGN.md section 4 (C14)"),
+ "C15":("property-based testing (proptest): generated (rate, delta, epsilon) vs. an independent high-accuracy Poisson quantile / pmf",
+        "Means from 10^-3 to ~2500 (quick) / ~5000 (thorough), epsilon from 10^-6 to 0.5: the returned n must lie in the quantile band for 1-epsilon -/+ 1e-7 computed by an independent ratio-recurrence evaluation with a right-to-left tail sum; zero at zero, monotone in delta, arrival_probability within 1e-6 relative of the pmf; termination through a deterministic step budget (hook). Exploration.",
+        "Trusted: the harness' reference pmf (Stirling series for ln k!, ratio recurrence) and the stated float tolerances.",
+        "DESIGN.md section 4 (C15)"),
+ "C16":("property-based testing (proptest): generated component models and aggregation shapes vs. recomputation from separately built components",
+        "service_needed, job_cost_iter, least_wcet_in_interval, service_needed_by_n_jobs and the per-component variant of RBF / Aggregate / Slice (boxed, referenced, sliced, nested) are recomputed from separately built arrival and cost objects (sum, multiset union, n largest by sorting). Exploration.",
+        "Trusted: the component models as black boxes (C10/C14).",
+        "DESIGN.md section 4 (C16)"),
 }
 NA_REASON={}
 checks=[]
